@@ -68,7 +68,9 @@ pub fn run(ctx: &Ctx) -> i32 {
     let per_shard = ctx.tier.pick(80, 2000);
     let acc = run_sharded(ctx, |shard| {
         let mut acc = Acc::new();
-        for k in 0..per_shard {
+        // (the last `mazes` rounds are tiny programs of one family, see below)
+        let mazes = ctx.tier.pick(250, 4000);
+        for k in 0..per_shard + mazes {
             let mut rng = Rng::derive(ctx.seed, 12_000 + shard as u64, k as u64);
             let shape = rng.below(10);
             let (prof, inject) = match shape {
@@ -97,10 +99,17 @@ pub fn run(ctx: &Ctx) -> i32 {
                 c.g.funcs.clear();
                 c.printed = crate::print::print(&c.g.prog, &Style::plain(), &mut Rng::new(1));
             }
-            let special = k % 4 == 1;
-            let mutant = k % 4 == 3;
+            let maze = k >= per_shard;
+            if maze {
+                let sh = crate::shapes::ecall_maze_family(&mut rng);
+                c.g.prog = sh.prog;
+                c.g.funcs.clear();
+                c.printed = crate::print::print(&c.g.prog, &Style::plain(), &mut Rng::new(1));
+            }
+            let special = k % 4 == 1 || maze;
+            let mutant = k % 4 == 3 && !maze;
             acc.evaluations += 1;
-            let shape_name = if special { "trap-handler-or-shared-tails" } else if mutant { "semantic-mutant" } else { match shape {
+            let shape_name = if maze { "maze-of-ecalls" } else if special { "trap-handler-or-shared-tails" } else if mutant { "semantic-mutant" } else { match shape {
                 0 => "jump-into-function",
                 1 => "fall-through-into-function",
                 2 | 3 => "conforming",
@@ -111,7 +120,7 @@ pub fn run(ctx: &Ctx) -> i32 {
             // ---- a family of its own: one epilogue file (restore + ret) included at the end of every
             // arm of a function, so that several returns stand at one and the same position of one file
             let mut files: Vec<(String, String)> = Vec::new();
-            let include_family = k % 8 == 6;
+            let include_family = k % 8 == 6 && !maze;
             if include_family {
                 let arms = 2 + rng.below(2);
                 let mut m = String::from("# c12\nmain:\n");
